@@ -4,6 +4,7 @@ C03 — dgrep selects exactly the lines grep semantics prescribe.
 import DtailModel.Lemmas.Grep
 import DtailModel.Lemmas.GenGrep
 import DtailModel.Lemmas.GenPlain
+set_option autoImplicit false
 namespace Dtail.C03
 open Dtail
 variable {α : Type}
